@@ -80,7 +80,7 @@ ALLOWED_FAIL = ("testpep561", "testDaemonStatusKillRestartRecheck", "testYieldTh
 def main() -> None:
     for name in sorted(os.listdir(ROOT)):
         d = os.path.join(ROOT, name)
-        if not os.path.isdir(d):
+        if not os.path.isdir(d) or name.startswith("."):
             continue
         readme = ""
         for fn in ("README.md", "readme.md"):
